@@ -1088,7 +1088,35 @@ class Engine:
                 raise PyRaise(self.make_exc(ValueError, str(e)))
         raise PyRaise(self.make_exc(TypeError, 'int() argument'))
 
+    def concretize(self, v):
+        """a symbolic integer that the path condition pins to one value -> that python int (else v itself)"""
+        if conc(v) or not is_intlike(v):
+            return v
+        x = sym.lift(v)
+        lo, hi = getattr(x, 'lo', None), getattr(x, 'hi', None)
+        if lo is None or hi is None or hi - lo > 64:
+            return v
+        for c in range(lo, hi + 1):
+            if self.feasible(sym.zb(cmp('==', x, c))):
+                return c if self.prove(sym.zb(cmp('==', x, c))) else v
+        return v
+
+    def fork_small(self, v):
+        """symbolic integer with a small static interval (e.g. `2 if aligned else 1`): one path per value -> python int"""
+        st = sym.lift(v)
+        lo, hi = getattr(st, 'lo', None), getattr(st, 'hi', None)
+        if lo is None or hi is None or not (0 <= hi - lo <= 8):
+            return None
+        for c in range(lo, hi + 1):
+            if self.decide(sym.zb(cmp('==', st, c))):
+                return c
+        raise PathEnd()
+
     def make_range(self, *args):
+        if len(args) == 3 and not conc(args[2]) and is_intlike(args[2]):
+            c = self.fork_small(args[2])
+            if c is not None:
+                args = (args[0], args[1], c)
         if all(conc(a) for a in args):
             return range(*args)
         return SymRange(*args)
@@ -2010,6 +2038,14 @@ class Engine:
         # int(a / b) etc. handled via SymFrac
         f = self.ev(fe, env, g)
         args, kwargs = self.ev_args(e, env, g)
+        if f is range and len(args) == 3 and not conc(args[2]) and is_intlike(args[2]):
+            # range() with a symbolic step: fork on its value and let the local names bound to it see the concrete number
+            c_ = self.fork_small(args[2])
+            if c_ is not None:
+                for k_, v_ in list(env.items()):
+                    if v_ is args[2]:
+                        env[k_] = c_
+                args[2] = c_
         if f is None or is_intlike(f) or isinstance(f, (str, tuple)) or (isinstance(f, Obj) and not self._lookup_special(f.cls, '__call__')):
             raise PyRaise(self.make_exc(TypeError, "'%s' object is not callable" % _tname(f)))
         if isinstance(f, _Native):
